@@ -457,3 +457,31 @@ func singleStoredValue(a *ssa.Alloc) ssa.Value {
 	}
 	return nil
 }
+
+// funcValueUses returns, for an anonymous function, the value denoting it (its unique
+// MakeClosure, or the bare *ssa.Function when it captures nothing) and the instructions of the
+// parent that use that value as an operand. ok=false when the function has several creation sites.
+func funcValueUses(cl *ssa.Function) (val ssa.Value, uses []ssa.Instruction, ok bool) {
+	if cl.Parent() == nil {
+		return nil, nil, false
+	}
+	if len(cl.FreeVars) > 0 {
+		mc := theClosures.site[cl]
+		if mc == nil || mc.Referrers() == nil {
+			return nil, nil, false
+		}
+		return mc, append([]ssa.Instruction{}, (*mc.Referrers())...), true
+	}
+	parent := cl.Parent()
+	allInstrs(parent, func(ins ssa.Instruction) {
+		var ops []*ssa.Value
+		ops = ins.Operands(ops)
+		for _, op := range ops {
+			if op != nil && *op == ssa.Value(cl) {
+				uses = append(uses, ins)
+				break
+			}
+		}
+	})
+	return cl, uses, true
+}
